@@ -39,6 +39,9 @@ def run(ctx, progs):
         c05.drn1_de(ctx, prog, cfg)
         c05.dropper1(ctx, prog, cfg)
         drainrules.drainit1(ctx, prog, cfg)
+        from . import c08
+
+        c08.iterset1(ctx, prog, cfg, "DRAINIT1", types=("Drain",))
         drainrules.drnview1(ctx, prog, cfg)
         from .. import shapes
 
